@@ -528,6 +528,8 @@ func inBlockUntil(t *Thread, fn *ssa.Function, args []Value, pos token.Pos) Valu
 		obj = nil // condition looks at scheduler state (vThreadIdle): dependent on everything
 	}
 	t.visible(&SyncOp{kind: "blockuntil", obj: obj, pos: t.posOf(pos), enabled: en})
+	// the condition was established by monitor steps: everything before them is visible now
+	t.vcAll = vcJoin(t.vcAll, e.monClock)
 	return nil
 }
 
